@@ -50,6 +50,22 @@ func stmtWords(s Stmt) []uint32 {
 		return []uint32{0xDC500000, 0x03000001}
 	case "floadu": // flat_load_dword v3, v[11:12]  (v[1:2] + 48 bytes: lanes straddle cache lines unevenly)
 		return []uint32{0xDC500000, 0x0300000B}
+	case "gload": // global_load_dword v3, v[1:2], off   (FLAT encoding, SEG = global)
+		return []uint32{0xDC508000, 0x037F0001}
+	case "gstore": // global_store_dword v[8:9], v7, off
+		return []uint32{0xDC708000, 0x007F0708}
+	case "scload": // scratch SEG (=1) encoding of the same load; the simulator treats the address as flat
+		return []uint32{0xDC504000, 0x037F0001}
+	case "scstore":
+		return []uint32{0xDC704000, 0x007F0708}
+	case "floadg": // flat_load_dword v3, v[13:14]: in + gid*64, every lane in its own cache line
+		return []uint32{0xDC500000, 0x0300000D}
+	case "gloadg": // global_load_dword v3, v[13:14], off
+		return []uint32{0xDC508000, 0x037F000D}
+	case "sload2": // s_load_dword s13, s[0:1], 0x10   (the constant in the kernel arguments)
+		return []uint32{0xC0020340, 0x00000010}
+	case "suse": // v_add_u32 v7, vcc, s13, v7
+		return []uint32{0x320E0E0D}
 	case "use": // v_add_u32 v7, vcc, v7, v3
 		return []uint32{0x320E0707}
 	case "fstore": // flat_store_dword v[8:9], v7
@@ -67,7 +83,8 @@ var sopcOf = map[string]uint32{"eq": 6, "ne": 7, "gt": 8, "lt": 10}
 func usesMem(prog []Stmt) bool {
 	for _, s := range prog {
 		switch s.Op {
-		case "sload", "fload", "floadu", "use", "fstore", "ldsw", "ldsr":
+		case "sload", "fload", "floadu", "use", "fstore", "ldsw", "ldsr",
+			"gload", "gstore", "scload", "scstore", "floadg", "gloadg", "sload2", "suse":
 			return true
 		}
 	}
@@ -96,6 +113,10 @@ func assemble(prog []Stmt, wgSize int) []uint32 {
 			0x38121280, // v_addc_u32 v9, vcc, 0, v9, vcc
 			0x321602B0, // v_add_u32 v11, vcc, 48, v1
 			0x38180480, // v_addc_u32 v12, vcc, 0, v2, vcc
+			0x241A1484, // v_lshlrev_b32 v13, 4, v10      (gid * 64)
+			0x321A1A08, // v_add_u32 v13, vcc, s8, v13
+			0x7E1C0209, // v_mov_b32 v14, s9
+			0x381C1C80, // v_addc_u32 v14, vcc, 0, v14, vcc
 			0x7E0E0300, // v_mov_b32 v7, v0
 			0x240A0082, // v_lshlrev_b32 v5, 2, v0
 			0x2A0C0AFF, 0x00000100, // v_xor_b32 v6, 0x100, v5
@@ -152,7 +173,7 @@ func codeObject(ws []uint32, ldsBytes int) *insts.KernelCodeObject {
 	// pad so that the instruction fetch of the last line and the emulator's
 	// 8-byte look-ahead stay inside the allocation
 	co.Data = append(co.Data, make([]byte, 256)...)
-	co.KernargSegmentByteSize = 16
+	co.KernargSegmentByteSize = 24
 	co.GroupSegmentByteSize = uint32(ldsBytes)
 	co.EnableSgprKernargSegmentPtr = true
 	co.ComputePgmRsrc2 = 1 << 7 // work-group id X in s2
